@@ -372,7 +372,7 @@ def run_check(pid, tier, seed, replay, t0, debug=False):
                    "oracle": outcomes[i].oracle, "model_disagrees": i in mismatches,
                    "broken": broken, "n_failing": len(real_fail)}, open(rp, "w"), indent=1)
         print(f"VIOLATION property={pid} replay={rp}")
-        print(f"  {outcomes[i].oracle}")
+        print("  " + outcomes[i].oracle.replace("\n", "\\n")[:1500])
         rc = 1
     elif broken:
         rp = os.path.join(rdir, f"{pid}_broken.json")
